@@ -43,8 +43,26 @@ type AEv struct {
 	V     int    `json:"v"`
 	// Go-only
 	MT    string `json:"mt,omitempty"`    // media type
+	MTOK  *bool  `json:"mtok,omitempty"`  // media type is valid UTF-8 (nil = true)
 	CT    uint64 `json:"ct,omitempty"`    // custom type code
 	Multi bool   `json:"multi,omitempty"` // multiline comment
+}
+
+func (e AEv) mtOK() bool { return e.MTOK == nil || *e.MTOK }
+
+func recMT(e *AEv, mt string) {
+	ok := utf8.ValidString(mt)
+	e.MT = strings.ToValidUTF8(mt, "?")
+	if !ok {
+		e.MTOK = &ok
+	}
+}
+
+func concMT(e AEv) string {
+	if e.mtOK() {
+		return e.MT
+	}
+	return e.MT + "\xff"
 }
 
 func newEv(m string) AEv { return AEv{M: m, IDOK: true, IDLen: 1, Bytes: []int{}} }
@@ -558,7 +576,7 @@ func (r *Recorder) OnMedia(mt string, data []byte) {
 	e := newEv("OnMedia")
 	e.AT = "media"
 	e.DT = "media"
-	e.MT = mt
+	recMT(&e, mt)
 	e.Count = len(data)
 	e.Bytes = bytesToInts(data)
 	r.add(e)
@@ -603,7 +621,7 @@ func (r *Recorder) OnMediaBegin(mt string) {
 	e := newEv("OnMediaBegin")
 	e.AT = "media"
 	e.DT = "media"
-	e.MT = mt
+	recMT(&e, mt)
 	r.add(e)
 	if r.Next != nil {
 		r.Next.OnMediaBegin(mt)
@@ -780,10 +798,43 @@ func nanF64(sp string) float64 {
 	return math.Float64frombits(0x7ff8000000000001)
 }
 
+// volatileBuf models a producer that hands out slices of one reusable buffer (as the
+// decoders do): every []byte argument is buf[:n] with spare capacity behind it, and the
+// buffer is overwritten as soon as the call returns ("all []byte data MUST be considered
+// volatile").  A receiver that keeps or appends to such a slice corrupts later events.
+type volatileBuf struct{ buf []byte }
+
+func (v *volatileBuf) get(src []int) []byte {
+	if v == nil {
+		return intsToBytes(src)
+	}
+	if cap(v.buf) < len(src)+64 {
+		v.buf = make([]byte, 0, 2*len(src)+256)
+	}
+	b := v.buf[:len(src)]
+	for i, x := range src {
+		b[i] = byte(x)
+	}
+	return b
+}
+
+func (v *volatileBuf) scribble() {
+	if v == nil {
+		return
+	}
+	b := v.buf[:cap(v.buf)]
+	for i := range b {
+		b[i] = 0xEE
+	}
+}
+
 // Invoke performs the real call for an abstract event.  Panics from the receiver
 // propagate (rules signal rejection by panicking).
-func Invoke(recv events.DataEventReceiver, e AEv) {
-	data := intsToBytes(e.Bytes)
+func Invoke(recv events.DataEventReceiver, e AEv) { InvokeV(recv, e, nil) }
+
+func InvokeV(recv events.DataEventReceiver, e AEv, vb *volatileBuf) {
+	data := vb.get(e.Bytes)
+	defer vb.scribble()
 	switch e.M {
 	case "OnBeginDocument":
 		recv.OnBeginDocument()
@@ -892,7 +943,7 @@ func Invoke(recv events.DataEventReceiver, e AEv) {
 	case "OnStringlikeArray":
 		recv.OnStringlikeArray(atByName[e.AT], string(data))
 	case "OnMedia":
-		recv.OnMedia(e.MT, data)
+		recv.OnMedia(concMT(e), data)
 	case "OnCustomBinary":
 		recv.OnCustomBinary(e.CT, data)
 	case "OnCustomText":
@@ -900,7 +951,7 @@ func Invoke(recv events.DataEventReceiver, e AEv) {
 	case "OnArrayBegin":
 		recv.OnArrayBegin(atByName[e.AT])
 	case "OnMediaBegin":
-		recv.OnMediaBegin(e.MT)
+		recv.OnMediaBegin(concMT(e))
 	case "OnCustomBegin":
 		recv.OnCustomBegin(atByName[e.AT], e.CT)
 	case "OnArrayChunk":
@@ -915,6 +966,10 @@ func Invoke(recv events.DataEventReceiver, e AEv) {
 // tryInvoke calls Invoke under recover; returns false and the panic value if the
 // receiver panicked.  Harness-internal panics ("harness: ...") are re-raised.
 func tryInvoke(recv events.DataEventReceiver, e AEv) (ok bool, perr interface{}) {
+	return tryInvokeV(recv, e, nil)
+}
+
+func tryInvokeV(recv events.DataEventReceiver, e AEv, vb *volatileBuf) (ok bool, perr interface{}) {
 	defer func() {
 		if r := recover(); r != nil {
 			if s, isStr := r.(string); isStr && strings.HasPrefix(s, "harness:") {
@@ -924,7 +979,7 @@ func tryInvoke(recv events.DataEventReceiver, e AEv) (ok bool, perr interface{})
 			perr = r
 		}
 	}()
-	Invoke(recv, e)
+	InvokeV(recv, e, vb)
 	return true, nil
 }
 
@@ -933,7 +988,13 @@ func tryInvoke(recv events.DataEventReceiver, e AEv) (ok bool, perr interface{})
 func sameEv(a, b AEv) bool {
 	if a.M != b.M || a.DT != b.DT || a.K != b.K || a.Form != b.Form || a.Sp != b.Sp || a.ID != b.ID ||
 		a.AT != b.AT || a.Count != b.Count || a.N != b.N || a.More != b.More || a.V != b.V ||
-		a.MT != b.MT || a.CT != b.CT || a.Multi != b.Multi || len(a.Bytes) != len(b.Bytes) {
+		a.mtOK() != b.mtOK() || (a.mtOK() && a.MT != b.MT) || a.CT != b.CT || a.Multi != b.Multi {
+		return false
+	}
+	if a.DT == "time" {
+		return true // bytes of a time event are derived from k
+	}
+	if len(a.Bytes) != len(b.Bytes) {
 		return false
 	}
 	for i := range a.Bytes {
